@@ -427,6 +427,14 @@ def gen_case(rng, spec, tier):
         sizes = [sizes[0]] * 3
     ys = [_years(rng, n) for n in sizes]
     series = [gen_series(rng, spec["kind"], n, y) for n, y in zip(sizes, ys)]
+    u = rng.random()
+    if u < 0.06:  # no bias: cm_hist = obs (zero-bias / isclose branches of step 5 and of the frequency formula)
+        series[1], ys[1] = series[0].copy(), ys[0].copy()
+    elif u < 0.12:  # no climate change signal: cm_future = cm_hist
+        series[2], ys[2] = series[1].copy(), ys[1].copy()
+    elif u < 0.16:  # everything equal
+        series[1], ys[1] = series[0].copy(), ys[0].copy()
+        series[2], ys[2] = series[0].copy(), ys[0].copy()
     if spec.get("missing"):
         for x in series:
             if rng.random() < 0.75:  # tie-free valid values (the order of imputed values depends on ties, see `ctie`)
@@ -610,7 +618,11 @@ def compare(e, got, hist):
     def verdict(ok, detail):
         if ok:
             return "ok", ""
-        return ("tie", detail) if flags else ("mismatch", detail)
+        if flags:
+            for f in flags:
+                hist[f"tie-flag:{f}"] += 1
+            return "tie", detail
+        return "mismatch", detail
 
     if e.op == "stage-exception":
         return "mismatch", e.note
@@ -665,7 +677,7 @@ def correspondence(rng, n_cases, tier, res, configs=None):
         spec = CONFIGS[name]
         series, ys = gen_case(rng, spec, tier)
         seed = rng.randint(0, 2**31 - 2)
-        case = {"config": name, "k": k, "sizes": [int(s.size) for s in series], "np_seed": seed}
+        case = {"config": name, "k": k, "sizes": [int(x.size) for x in series], "np_seed": seed}
         exps += build_case(debs[name], name, series, ys, seed, case)
     lines = [e.line for e in exps]
     mismatches = []
@@ -802,4 +814,84 @@ def correspondence_aux(rng, n_cases, tier, res):
         hist[key] = hist.get(key, 0) + 1
         if not ok:
             mismatches.append({"op": e.op, "case": e.case, "detail": detail[:500], "line": e.line})
+    return mismatches
+
+
+# ------------------------------------------------------------------ apply_location (step 1 + window loop + step 8)
+def correspondence_location(rng, n_cases, tier, res):
+    """the real `ISIMIP.apply_location` (running-window and month mode) against `Model.Isimip.applyLocationRW/Months` for
+    configurations that need neither oracles nor draws (no detrending, no bound/threshold pair, KS off): this ties the
+    composition `step1 -> Model.Skeleton loop with winFn -> step8` to the real code"""
+    import datetime
+
+    from ibicus.debias import ISIMIP
+    from ibicus.utils import day_of_year, month, year
+
+    exps = []
+    for k in range(n_cases):
+        rw = bool(k % 2)
+        S = rng.choice([9, 15, 31, 45])
+        L = S + rng.choice([0, 10, 30])
+        kw = dict(trend_preservation_method="additive", nonparametric_qm=bool(rng.random() < 0.4), detrending=False,
+                  ks_test_for_goodness_of_cdf_fit=False, scale_by_annual_cycle_of_upper_bounds=bool(rng.random() < 0.5),
+                  window_length_annual_cycle_of_upper_bounds=rng.choice([5, 31]),
+                  running_window_mode=rw, running_window_length=L, running_window_step_length=S)
+        with warnings.catch_warnings():
+            warnings.simplefilter("ignore")
+            deb = ISIMIP(distribution=isimip_family.IsiRatSigmoid(), **kw)
+        ts, xs = [], []
+        for _ in range(3):
+            start = datetime.date(rng.randint(1960, 2090), 1, 1) + datetime.timedelta(days=rng.choice([0, rng.randint(0, 364)]))
+            n = rng.choice([365, 400, 730, 731])
+            stride = rng.choice([1, 2, 3]) if rw and S >= 15 else rng.choice([3, 5, 7])
+            t = np.array([start + datetime.timedelta(days=j) for j in range(0, n, stride)], dtype=object)
+            base = rng.randint(100, 20000)
+            x = np.array([base + rng.randint(-640, 640) + int(300 * np.cos(2 * np.pi * d.timetuple().tm_yday / 365.25)) for d in t], dtype=float) / 64
+            ts.append(t)
+            xs.append(x)
+        with Spy() as spy:
+            try:
+                out, exc = deb.apply_location(xs[0].copy(), xs[1].copy(), xs[2].copy(), ts[0], ts[1], ts[2]), None
+            except Exception as ex:  # noqa: BLE001
+                out, exc = None, type(ex).__name__
+        with warnings.catch_warnings():
+            warnings.simplefilter("ignore")
+            doy = [np.asarray(day_of_year(t), dtype=int) for t in ts]
+            mon = [np.asarray(month(t), dtype=int) for t in ts]
+            yrs = [np.asarray(year(t), dtype=int) for t in ts]
+        Ln = deb.running_window.window_length_in_days if rw else 1
+        Sn = deb.running_window.window_step_length_in_days if rw else 1
+        line = (f"applyloc {'rw' if rw else 'months'} {cfg_token(deb)} {Ln} {Sn} " + " ".join(C.ilist(d) for d in doy) + " "
+                + " ".join(C.ilist(m) for m in mon) + " " + " ".join(C.ilist(y) for y in yrs) + " " + " ".join(rl(x) for x in xs))
+        case = {"config": "apply_location", "k": k, "mode": "rw" if rw else "months", "L": L, "S": S, "sizes": [int(x.size) for x in xs],
+                "npqm": kw["nonparametric_qm"], "scale": kw["scale_by_annual_cycle_of_upper_bounds"]}
+        exps.append(Expect("applyloc", line, case, out=out, exc=exc, inputs=xs, pyflags=set(spy.flags),
+                           keys=[float(v) for v in xs[2]], used_oracles=bool(spy.uniform or spy.random or spy.sig or spy.ks)))
+        res.count(("applyloc", rw, L, S, kw["nonparametric_qm"], kw["scale_by_annual_cycle_of_upper_bounds"]), True, sample=case if k < 2 else None)
+    try:
+        out = C.run_driver("DrvIsimip", [e.line for e in exps])
+    except C.DriverError as ex:
+        return [{"op": "driver", "case": {}, "detail": str(ex)[:600]}]
+    mismatches = []
+    hist = res.extra.setdefault("branch_hist", {})
+    for e, got in zip(exps, out):
+        res.cov["traces_validated_against_impl"] += 1
+        toks = got.split(" ")
+        if e.used_oracles:
+            ok, detail = False, "the configuration unexpectedly consumed an oracle / draw"
+        elif e.exc is not None or toks[0] != "ok":
+            ok, detail = (toks[0] == "error" and e.exc == toks[1]), f"applyloc: impl {e.exc} model {got[:80]}"
+        else:
+            model = [float("nan") if t == "none" else float(Fraction(t)) for t in toks[1].split(",")] if toks[1] != "-" else []
+            real = [float(v) for v in e.out]
+            ok = close(model, real, scale_of(*e.inputs, [v for v in real if v == v]))
+            detail = f"applyloc: {worst(model, real)}"
+        flags = set(e.pyflags) | (set(toks[2].split(",")) if toks[0] == "ok" and len(toks) > 2 and toks[2] != "-" else set())
+        status = "ok" if ok else ("tie" if flags else "mismatch")
+        key = f"applyloc:{e.case['mode']}:{status}"
+        hist[key] = hist.get(key, 0) + 1
+        if status == "tie":
+            res.extra["ties_accepted"] = res.extra.get("ties_accepted", 0) + 1
+        elif status == "mismatch":
+            mismatches.append({"op": "applyloc", "case": e.case, "detail": detail[:500], "line": e.line})
     return mismatches
